@@ -13,12 +13,27 @@ Totality ("quoted-printable and header decoding never fail", "terminates for
 every input") is carried by the types: every `Model` function below is a total
 Lean function (`qpLoop`, `rfc2047Loop` by well-founded recursion on the input
 length), and `qpDecode`/`rfc2047Decode` return `Bytes`, not `Option Bytes`.
+
+Audit notes on the reference decoders (`Spec/Decode.lean`, written without looking at the loops of decode.c; it
+imports neither the model nor the generated table).  `Spec.b64` is RFC 4648 section 4 as a mathematician would write
+it (value table, 24-bit groups by arithmetic, padding by `k mod 4`, white space filtered first).  The other two are
+the PROPERTY TEXT rather than the RFCs, where these differ:
+* `Spec.qp` knows the soft line break `=LF` only: `=CRLF` (the form of RFC 2045) and `= LF` (transport padding
+  before the break) are copied unchanged, and lower-case hex is not decoded (evaluated below);
+* `Spec.rfc2047` is all-or-nothing: if ANY `=?` of the string does not start a well-formed word (or a B word is
+  not valid base64) the WHOLE input is returned unchanged - words that are well formed included ("malformed
+  sequences are passed through unchanged" read as the code reads it); a word is accepted with an empty charset,
+  with blanks inside, and glued to other text; the charset is ignored; a decoded B word is cut at its first NUL.
+The correspondence is therefore "model = property-text decoder", not "model = MIME decoder"; the differences to the RFCs
+are visible here and nowhere hidden in the proofs.
 -/
 
 namespace Mdsort.Props
 open Mdsort
 
-/-- The alphabet table regenerated from decode.c is RFC 4648's Table 1, and the pad is `=`. -/
+/-- The alphabet table regenerated from decode.c is RFC 4648's Table 1, and the pad is `=`.  (`Model.b64idx` is
+`strchr` in `Gen.base64Alphabet`, the string literal `Base64[]` of the decode.c under check; `Spec.b64val` is written out
+by ranges.  Exchanging two letters of the C table makes this statement false.) -/
 theorem C16_alphabet : (∀ c : UInt8, Model.b64idx c = (Spec.b64val c).map UInt8.ofNat) ∧ Gen.pad64 = 61 :=
   Proofs.b64idx_eq_b64val
 
@@ -54,7 +69,9 @@ theorem C16_cstring_view (s : Bytes) :
 open L0 in
 /-- "None of them reads or writes out of bounds", the output side: the three decoders write their result through
 the libks buffer (`buffer_alloc(strlen(str))` or `buffer_alloc(128)`, `buffer_putc` per byte, `buffer_printf("%s")`
-for a decoded word, `buffer_putc(bf, '\0')`, `buffer_release`).  For every size hint and every sequence of such
+for a decoded word, `buffer_putc(bf, '\0')`, `buffer_release`).  (The statement is about the buffer under ANY
+sequence of such operations; that the decoders issue only these operations is by reading decode.c - the list-level
+models append to a `List`, they do not call `LBuf`.)  For every size hint and every sequence of such
 operations no write leaves the object, nothing is dropped, and the released object is a C string reading as the
 bytes appended up to their first NUL.  (The input side - every read of the source string - is
 `C07_L0_decoders_refine`; the buffer itself: `C07_L0_buffer_in_bounds`, `C07_L0_buffer_contents`.) -/
@@ -71,5 +88,18 @@ example : Spec.b64 (ofString "aGVs bG8=") = some (ofString "hello") := by decide
 example : Spec.b64 (ofString "aGVsbG9=") = none := by decide +kernel   -- non-zero trailing bits
 example : Spec.qp false (ofString "a=3Db=\nc=3") = ofString "a=bc=3" := by decide +kernel
 example : Spec.rfc2047 (ofString "=?utf-8?Q?a_b?= =?x?b?Yw==?= d") = ofString "a bc d" := by decide +kernel
+
+/-! What the reference decoders do NOT do (the readings listed in the header, evaluated). -/
+example : Spec.qp false (ofString "a=\r\nb= \nc=3d") = ofString "a=\r\nb= \nc=3d" := by decide +kernel
+example : Spec.rfc2047 (ofString "=?utf-8?Q?a?= =?utf-8?X?b?=") = ofString "=?utf-8?Q?a?= =?utf-8?X?b?=" ∧
+    Spec.rfc2047 (ofString "=?utf-8?Q?a?= x=?y") = ofString "=?utf-8?Q?a?= x=?y" ∧
+    Spec.rfc2047 (ofString "=??q?a b?=c") = ofString "a bc" ∧
+    Spec.rfc2047 (ofString "=?x?B?YQBi?=") = ofString "a" := by decide +kernel
+
+/-- Non-vacuity of `C16_b64` (hypothesis `s.length < n`, as `base64_decode` calls it) on the model side: white space
+inside, missing padding, text after the padding, a foreign character. -/
+example : Model.b64pton (ofString "aGVs\n bG8=") 11 = some (ofString "hello") ∧ (ofString "aGVs\n bG8=").length < 11 ∧
+    Model.b64pton (ofString "aGVsbG8") 8 = none ∧ Model.b64pton (ofString "aGVsbG8=x") 10 = none ∧
+    Model.b64pton (ofString "aGV$bG8=") 9 = none := by decide +kernel
 
 end Mdsort.Props
